@@ -270,7 +270,7 @@ def main(tier, seed, replay=None):
     rep.add_tlc(mw)
     ms = run_tlc('MapWriter', cfg='MapWriter.cfg', cfg_text=cfg % 8,
                  modules=dummy, workers=4, heap='4g', must_succeed=False,
-                 simulate=25 if tier == 'quick' else 600, depth=9,
+                 simulate=25 if tier == 'quick' else 200, depth=9,
                  seed=seed + 3)
     rep.add_tlc(ms)
     for r0 in (mw, ms):
@@ -312,11 +312,11 @@ def main(tier, seed, replay=None):
     rep.notes['drift_model_vs_code'] = drift
     # (b) printer streams
     themes = gen.run_themes(['stmt', 'lit', 'ctrl', 'lhs'], tier, rep, jobs=4)
-    r, deep = gen.simulate(1200 if tier == 'quick' else 20000, maxtok=30,
+    r, deep = gen.simulate(1200 if tier == 'quick' else 8000, maxtok=30,
                            maxnl=1, seed=seed + 17, workers=8)
     rep.add_tlc(r)
     prog = deep + [s for nm in themes for s in themes[nm]
-                   if hash(s.key()) % (25 if tier == 'quick' else 3) == 0]
+                   if hash(s.key()) % (25 if tier == 'quick' else 8) == 0]
     pwork = []
     texts = [concretise(s, seed=rng.randrange(999), pools='rich',
                         gaps=layout_variant(s, rng, 0.2)) for s in prog]
